@@ -460,7 +460,8 @@ def _filltriu_rt(sh, x, e=None):
     out = torch.zeros(tuple(sh), dtype=_m(x).dtype)
     i = torch.triu_indices(sh[0], sh[1])
     out[i[0], i[1]] = _m(x)
-    out = out + out.t() - torch.diag(torch.diagonal(out)) if sh[0] == sh[1] else out
+    if sh[0] == sh[1]:
+        out[i[1], i[0]] = _m(x)          # mirror by moving elements (no arithmetic)
     return MatVal(out)
 
 
